@@ -891,6 +891,9 @@ func (s *Service) ProcessRequest(ctx *core.Context, m map[string]interface{}, ou
 		}
 
 		id, _, err := GetStringParam(m, "id", false)
+		if err != nil {
+			return nil, err
+		}
 
 		// ToDo: Not this.
 		js, err := json.Marshal(fact)
@@ -1122,6 +1125,9 @@ func (s *Service) ProcessRequest(ctx *core.Context, m map[string]interface{}, ou
 		}
 
 		id, _, err := GetStringParam(m, "id", false)
+		if err != nil {
+			return nil, err
+		}
 
 		// ToDo: Not this.
 		js, err := json.Marshal(rule)
